@@ -92,6 +92,15 @@ def wrap_scheduler(sched, log):
                 return out
             return w
         setattr(sched, name, make(name, orig))
+    if hasattr(sched, "trials_checkpoints_can_be_removed"):
+        orig_decl = sched.trials_checkpoints_can_be_removed
+
+        def decl():
+            out = orig_decl()
+            if out:
+                log.append(("declared", tuple(out)))
+            return out
+        sched.trials_checkpoints_can_be_removed = decl
     return sched
 
 
